@@ -3,11 +3,9 @@
 //! scheduler of engine E2: several client futures, each of which parks at a *gate* before every
 //! server / object-store request; the scheduler decides which parked client proceeds next.
 
-use std::cell::RefCell;
 use std::future::Future;
 use std::pin::Pin;
-use std::rc::Rc;
-use std::sync::Arc;
+use std::sync::{Arc, Mutex};
 use std::task::{Context, Poll, Wake, Waker};
 use std::thread::Thread;
 
@@ -81,11 +79,11 @@ pub struct GateState {
 }
 
 #[derive(Clone)]
-pub struct Gates(pub Rc<RefCell<GateState>>);
+pub struct Gates(pub Arc<Mutex<GateState>>);
 
 impl Gates {
     pub fn new(n: usize) -> Gates {
-        Gates(Rc::new(RefCell::new(GateState { permit: None, decision: 0, parked: vec![None; n] })))
+        Gates(Arc::new(Mutex::new(GateState { permit: None, decision: 0, parked: vec![None; n] })))
     }
     /// Future resolving (to the scheduler's decision byte) once `client` is granted a permit.
     pub fn pass(&self, client: usize, label: String) -> GateFuture {
@@ -102,7 +100,7 @@ pub struct GateFuture {
 impl Future for GateFuture {
     type Output = u8;
     fn poll(self: Pin<&mut Self>, _cx: &mut Context<'_>) -> Poll<u8> {
-        let mut g = self.gates.0.borrow_mut();
+        let mut g = self.gates.0.lock().unwrap();
         if g.permit == Some(self.client) {
             g.permit = None;
             g.parked[self.client] = None;
@@ -157,7 +155,7 @@ pub fn run_sched<'a, R>(
         for c in 0..n {
             let mut spins = 0u32;
             loop {
-                if clients[c].is_none() || gates.0.borrow().parked[c].is_some() {
+                if clients[c].is_none() || gates.0.lock().unwrap().parked[c].is_some() {
                     break;
                 }
                 let fut = clients[c].as_mut().unwrap();
@@ -167,7 +165,7 @@ pub fn run_sched<'a, R>(
                         clients[c] = None;
                     }
                     Poll::Pending => {
-                        if gates.0.borrow().parked[c].is_some() {
+                        if gates.0.lock().unwrap().parked[c].is_some() {
                             break;
                         }
                         // pending on something else (actor thread round trip): wait briefly
@@ -186,7 +184,7 @@ pub fn run_sched<'a, R>(
         }
         // (2) who is enabled?
         let enabled: Vec<(usize, String)> = {
-            let g = gates.0.borrow();
+            let g = gates.0.lock().unwrap();
             (0..n)
                 .filter(|c| clients[*c].is_some())
                 .filter_map(|c| g.parked[c].as_ref().map(|p| (c, p.label.clone())))
@@ -206,11 +204,11 @@ pub fn run_sched<'a, R>(
         steps += 1;
         if ch.drop_client {
             clients[c] = None;
-            gates.0.borrow_mut().parked[c] = None;
+            gates.0.lock().unwrap().parked[c] = None;
             continue;
         }
         {
-            let mut g = gates.0.borrow_mut();
+            let mut g = gates.0.lock().unwrap();
             g.permit = Some(c);
             g.decision = ch.decision;
             g.parked[c] = None;
@@ -223,7 +221,7 @@ pub fn run_sched<'a, R>(
             }
         }
         // a permit must never linger
-        gates.0.borrow_mut().permit = None;
+        gates.0.lock().unwrap().permit = None;
     }
     SchedOutcome { results, trace, steps, watchdog }
 }
